@@ -190,3 +190,50 @@ func ruleParseRefreshes(r *core.Reporter) {
 		r.Held("models.URL.Parse/refreshes", 1, "every return of Parse follows u.parsed = parse(u.Raw)")
 	}
 }
+
+func init() {
+	register(&core.Rule{ID: "R-SEEN-ASKS-STORE", Props: []string{"C08"}, Doc: "the local seencheck answers from the store: in the lookup function of package seencheck (the one that calls DB.Get — isSeen today) every path to a return passes that DB.Get, and no other state decides the answer. An in-memory prefilter that is not rebuilt from the database says 'never seen' for everything an earlier run of the same job recorded: all of it is fetched again and its stored type overwritten", Run: ruleSeenAsksStore})
+}
+
+func ruleSeenAsksStore(r *core.Reporter) {
+	p := r.P
+	n := 0
+	for _, fn := range p.FuncsInPkg(rel(pkgSeen)) {
+		var get ssa.Instruction
+		allInstrs(fn, func(in ssa.Instruction) {
+			cc := ir.AsCall(in)
+			if cc == nil {
+				return
+			}
+			name := ""
+			if cc.IsInvoke() {
+				name = cc.Method.Name()
+			} else if sc := cc.StaticCallee(); sc != nil {
+				name = sc.Name()
+			}
+			if name != "Get" {
+				return
+			}
+			if _, f, ok := fieldOfLoad(cc.Value); ok && f == "DB" {
+				get = in
+			} else if len(cc.Args) > 0 {
+				if _, f, ok := fieldOfLoad(cc.Args[0]); ok && f == "DB" {
+					get = in
+				}
+			}
+		})
+		if get == nil {
+			continue
+		}
+		n++
+		r.Analysed(fn)
+		key := core.FuncName(fn) + "/asks-store"
+		isGet := func(x ssa.Instruction) bool { return x == get }
+		if ret, skip := ir.PathExists([]ir.Pt{ir.Entry(fn)}, ir.Opts{Stop: isGet}, ir.IsExit); skip {
+			r.Violated(key, p.InstrPos(ret), "the seencheck lookup can answer without asking the database (a return is reachable before DB.Get): whatever decides that — a cache, a counter, a prefilter — is empty after a restart on the same job directory, so every URL recorded by the previous run is reported as never seen and fetched again")
+		} else {
+			r.Held(key, 1, "every answer of the lookup follows DB.Get")
+		}
+	}
+	r.Floor("seencheck lookups (DB.Get callers)", n, 1)
+}
